@@ -255,7 +255,16 @@ func genInfo(r *vhlib.Rand) string {
 }
 
 var urls = []string{"http://tr.example/announce", "https://t2.example:8443/a?x=1", "udp://tr3.example:6969",
-	"wss://unknown.example/x", "", "http://[::1", "relative/path", "http://ws.example/files/", "https://h.example/seed.php"}
+	"wss://unknown.example/x", "", "http://[::1", "relative/path", "http://ws.example/files/", "https://h.example/seed.php",
+	"ftp://ftp.example/pub/", "file:///etc/passwd", "%zz://x", "HTTP://UPPER.example/"}
+
+// seedURL: a web-seed URL, usable (http/https) or not
+func seedURL(r *vhlib.Rand) string {
+	if r.Chance(60) {
+		return urls[7+r.Intn(2)]
+	}
+	return urls[[]int{3, 4, 5, 6, 9, 10, 11, 12, 0, 2}[r.Intn(10)]]
+}
 
 func pickURL(r *vhlib.Rand) string {
 	if r.Chance(75) {
@@ -292,11 +301,11 @@ func genTorrent(r *vhlib.Rand) (string, string) {
 	for _, k := range []string{"url-list", "httpseeds"} {
 		if r.Chance(30) {
 			if r.Chance(40) {
-				kvs = append(kvs, kv{k, bstr(urls[7+r.Intn(2)])})
+				kvs = append(kvs, kv{k, bstr(seedURL(r))})
 			} else {
 				var l []string
-				for j := r.Intn(3); j > 0; j-- {
-					l = append(l, urls[[]int{7, 8, 7, 8, 3, 4, 6}[r.Intn(7)]])
+				for j := r.Intn(4); j > 0; j-- {
+					l = append(l, seedURL(r))
 				}
 				kvs = append(kvs, kv{k, encStrList(l)})
 			}
@@ -426,31 +435,57 @@ func panicCause(p string) string {
 	return "other"
 }
 
-func tiersOf(t *tor.Torrent) [][]string {
-	var out [][]string
-	for _, tier := range t.Trackers() {
-		l := []string{}
-		for _, tr := range tier {
-			l = append(l, tr.URL())
+// inspect reads a torrent's trackers and web seeds through the real accessors and calls
+// the side-effect-free methods of every element, all under recover: fn names the call
+// that panicked ("" if none).
+func inspect(t *tor.Torrent) (tiers [][]string, ws []string, fn string, msg string) {
+	cur := "Torrent.Trackers"
+	msg = vhlib.Recover(func() {
+		for _, tier := range t.Trackers() {
+			l := []string{}
+			for _, tr := range tier {
+				cur = "Tracker.URL"
+				l = append(l, tr.URL())
+				cur = "Tracker.GetState"
+				tr.GetState()
+			}
+			tiers = append(tiers, l)
 		}
-		out = append(out, l)
+		cur = "Torrent.Webseeds"
+		for _, w := range t.Webseeds() {
+			k := "?:"
+			switch w.(type) {
+			case *webseed.GetRight:
+				k = "G:"
+			case *webseed.Hoffman:
+				k = "H:"
+			}
+			cur = "Webseed.URL"
+			u := w.URL()
+			cur = "Webseed.Count"
+			w.Count()
+			cur = "Webseed.Rate"
+			w.Rate()
+			cur = "Webseed.Ready"
+			w.Ready(true)
+			ws = append(ws, k+vhlib.Hex([]byte(u)))
+			cur = "Torrent.Webseeds"
+		}
+	})
+	if msg != "" {
+		fn = cur
 	}
-	return out
+	return
 }
 
-func wsOf(t *tor.Torrent) []string {
-	var out []string
-	for _, ws := range t.Webseeds() {
-		k := "?:"
-		switch ws.(type) {
-		case *webseed.GetRight:
-			k = "G:"
-		case *webseed.Hoffman:
-			k = "H:"
-		}
-		out = append(out, k+vhlib.Hex([]byte(ws.URL())))
+// guard runs f (calls into the real code) under recover and reports a panic as a
+// violation of the "never crashes" clause; true if it panicked.
+func guard(c *vhlib.Ctx, fn string, f func()) bool {
+	if p := vhlib.Recover(f); p != "" {
+		c.Violate("panic:"+fn+":"+panicCause(p), p, c.Case())
+		return true
 	}
-	return out
+	return false
 }
 
 // hexU: URL in hex; the empty URL is "~" ("-" is the empty list)
@@ -610,7 +645,9 @@ func runFile(c *vhlib.Ctx, b []byte, expInfo *string, class string) {
 	if decInfo {
 		o := res
 		if t != nil {
-			o = metaline.GeomLine(t)
+			if guard(c, "Torrent-accessors", func() { o = metaline.GeomLine(t) }) {
+				o = "panic"
+			}
 		}
 		c.Emit("mc 0 "+metaline.BInfoTokens(&bi), o)
 		for _, f := range bi.Files {
@@ -638,7 +675,9 @@ func runFile(c *vhlib.Ctx, b []byte, expInfo *string, class string) {
 	if t == nil {
 		return
 	}
-	checkGeometry(c, t, c.Case())
+	if guard(c, "Torrent-accessors", func() { checkGeometry(c, t, c.Case()) }) {
+		return
+	}
 	if len(t.Hash) != 20 {
 		c.Violate("infohash:not-20-bytes", "", c.Case())
 	}
@@ -656,41 +695,68 @@ func runFile(c *vhlib.Ctx, b []byte, expInfo *string, class string) {
 		}
 	}
 
-	// 3. WriteTorrent -> ReadTorrent
+	// 3. trackers / web seeds of the accepted torrent, then WriteTorrent -> ReadTorrent
+	tiers1, ws1, fn, msg := inspect(t)
+	if fn != "" {
+		c.Violate("panic:"+fn+":"+panicCause(msg), "on a torrent ReadTorrent accepted: "+msg, c.Case())
+	}
 	var buf bytes.Buffer
 	var werr error
 	wp := vhlib.Recover(func() { werr = tor.WriteTorrent(&buf, t) })
-	if wp != "" || werr != nil {
-		c.Emit("wt "+tiersStr(tiersOf(t))+" "+joinOr(wsOf(t)), "write-failed")
-		c.Violate("roundtrip:write-failed", wp+fmt.Sprint(werr), c.Case())
+	if wp != "" {
+		c.Violate("panic:WriteTorrent:"+panicCause(wp), wp, c.Case())
+		return
+	}
+	if fn != "" {
+		return // what the torrent holds could not even be read: nothing to compare
+	}
+	wtop := "wt " + tiersStr(tiers1) + " " + joinOr(ws1)
+	if werr != nil {
+		c.Emit(wtop, "write-failed")
+		c.Violate("roundtrip:write-failed", fmt.Sprint(werr), c.Case())
 		return
 	}
 	var t2 *tor.Torrent
 	var err2 error
 	rp := vhlib.Recover(func() { t2, err2 = tor.ReadTorrent("", bytes.NewReader(buf.Bytes())) })
 	var bt2 tor.BTorrent
-	bencode.DecodeBytes(buf.Bytes(), &bt2)
+	vhlib.Recover(func() { bencode.DecodeBytes(buf.Bytes(), &bt2) })
 	al := "nil"
 	if bt2.AnnounceList != nil {
 		al = tiersStr(bt2.AnnounceList)
 	}
 	back := "unreadable"
-	if t2 != nil {
-		back = tiersStr(tiersOf(t2)) + "|" + joinOr(wsOf(t2))
+	var tiers2 [][]string
+	var ws2 []string
+	if rp == "" && t2 != nil {
+		var fn2, msg2 string
+		tiers2, ws2, fn2, msg2 = inspect(t2)
+		if fn2 != "" {
+			c.Violate("panic:"+fn2+":"+panicCause(msg2), "on the re-read torrent: "+msg2, c.Case())
+			back = "panic"
+		} else {
+			back = tiersStr(tiers2) + "|" + joinOr(ws2)
+		}
 	}
-	c.Emit("wt "+tiersStr(tiersOf(t))+" "+joinOr(wsOf(t)),
-		fmt.Sprintf("a=%s al=%s ul=%s hs=%s back=%s", hexU(bt2.Announce), al,
-			listStr(bt2.URLList), listStr(bt2.HTTPSeeds), back))
-	if rp != "" || err2 != nil || t2 == nil {
-		c.Violate("roundtrip:written-file-rejected", rp+fmt.Sprint(err2), c.Case())
+	c.Emit(wtop, fmt.Sprintf("a=%s al=%s ul=%s hs=%s back=%s", hexU(bt2.Announce), al,
+		listStr(bt2.URLList), listStr(bt2.HTTPSeeds), back))
+	if rp != "" {
+		c.Violate("panic:ReadTorrent:"+panicCause(rp), "on the file WriteTorrent produced: "+rp, c.Case())
+		return
+	}
+	if err2 != nil || t2 == nil {
+		c.Violate("roundtrip:written-file-rejected", fmt.Sprint(err2), c.Case())
+		return
+	}
+	if back == "panic" {
 		return
 	}
 	if !bytes.Equal(t2.Hash, t.Hash) {
 		c.Violate("roundtrip:info-hash-changed", "", c.Case())
 	}
-	if a, b := tiersStr(tiersOf(t)), tiersStr(tiersOf(t2)); a != b {
+	if a, b := tiersStr(tiers1), tiersStr(tiers2); a != b {
 		k := "other"
-		if ts := tiersOf(t); len(ts) == 1 && len(ts[0]) == 1 && ts[0][0] == "" {
+		if len(tiers1) == 1 && len(tiers1[0]) == 1 && tiers1[0][0] == "" {
 			k = "single-empty-url"
 		}
 		c.Violate("roundtrip:trackers:"+k, a+" -> "+b, c.Case())
@@ -703,9 +769,8 @@ func runFile(c *vhlib.Ctx, b []byte, expInfo *string, class string) {
 		}
 		return
 	}
-	w1, w2 := wsOf(t), wsOf(t2)
-	if joinOr(gr(w1, "G:")) != joinOr(gr(w2, "G:")) || joinOr(gr(w1, "H:")) != joinOr(gr(w2, "H:")) || len(w1) != len(w2) {
-		c.Violate("roundtrip:webseeds", joinOr(w1)+" -> "+joinOr(w2), c.Case())
+	if joinOr(gr(ws1, "G:")) != joinOr(gr(ws2, "G:")) || joinOr(gr(ws1, "H:")) != joinOr(gr(ws2, "H:")) || len(ws1) != len(ws2) {
+		c.Violate("roundtrip:webseeds", joinOr(ws1)+" -> "+joinOr(ws2), c.Case())
 	}
 }
 
@@ -753,9 +818,11 @@ func runMagnet(c *vhlib.Ctx, m string, exp []byte, expKnown bool, class string) 
 	var err error
 	p := vhlib.Recover(func() { t, err = tor.ReadMagnet("", m) })
 	u := "U0"
-	if pu, e := nurl.Parse(m); e == nil {
-		u = "U1 " + vhlib.Hex([]byte(pu.Scheme)) + " " + listStr(pu.Query()["xt"])
-	}
+	vhlib.Recover(func() {
+		if pu, e := nurl.Parse(m); e == nil {
+			u = "U1 " + vhlib.Hex([]byte(pu.Scheme)) + " " + listStr(pu.Query()["xt"])
+		}
+	})
 	obs := "nil"
 	switch {
 	case p != "":
@@ -783,6 +850,10 @@ func runMagnet(c *vhlib.Ctx, m string, exp []byte, expKnown bool, class string) 
 		}
 		if expKnown && !bytes.Equal(t.Hash, exp) {
 			c.Violate("magnet:hash-is-not-the-btih-value", vhlib.Hex(t.Hash)+" != "+vhlib.Hex(exp), c.Case())
+		}
+		// the tr= / ws= / as= entries it kept must be usable objects
+		if _, _, fn, msg := inspect(t); fn != "" {
+			c.Violate("panic:"+fn+":"+panicCause(msg), "on a torrent ReadMagnet returned: "+msg, c.Case())
 		}
 	} else if expKnown && exp != nil {
 		c.Violate("magnet:valid-btih-refused", m, c.Case())
@@ -829,7 +900,7 @@ func genMagnet(r *vhlib.Rand) (string, []byte, bool) {
 		}
 		return m, nil, true
 	case 4: // upper-case scheme, extra parameters
-		m := "MAGNET:?dn=a+name&tr=" + nurl.QueryEscape(urls[r.Intn(len(urls))]) + "&xt=urn:btih:" + s + "&ws=" + nurl.QueryEscape(urls[7]) + "&as=" + nurl.QueryEscape(urls[8])
+		m := "MAGNET:?dn=a+name&tr=" + nurl.QueryEscape(urls[r.Intn(len(urls))]) + "&xt=urn:btih:" + s + "&ws=" + nurl.QueryEscape(seedURL(r)) + "&as=" + nurl.QueryEscape(seedURL(r)) + "&ws=" + nurl.QueryEscape(seedURL(r))
 		if ok {
 			return m, h, true
 		}
@@ -843,6 +914,9 @@ func genMagnet(r *vhlib.Rand) (string, []byte, bool) {
 		m := "magnet:?xt=urn:btih:" + s
 		if r.Chance(30) {
 			m += "&dn=" + nurl.QueryEscape(names[r.Intn(len(names))])
+		}
+		for k := r.Intn(3); k > 0; k-- {
+			m += []string{"&ws=", "&as=", "&tr="}[r.Intn(3)] + nurl.QueryEscape(seedURL(r))
 		}
 		if ok {
 			return m, h, true
@@ -879,6 +953,13 @@ func deepProbe(c *vhlib.Ctx, prefix string, n int) {
 	}
 }
 
+// safely: a panic that escapes the specific guards is still an observation, never a dead harness
+func safely(c *vhlib.Ctx, f func()) {
+	if p := vhlib.Recover(f); p != "" {
+		c.Violate("panic:unguarded:"+panicCause(p), p, c.Case())
+	}
+}
+
 func main() {
 	if os.Getenv("C13_CHILD_DEEP") != "" {
 		deepChild()
@@ -892,9 +973,9 @@ func main() {
 			f := strings.Fields(l)
 			switch {
 			case f[0] == "slice" && len(f) >= 2:
-				runFile(c, vhlib.UnHex(f[1]), nil, "replay")
+				safely(c, func() { runFile(c, vhlib.UnHex(f[1]), nil, "replay") })
 			case f[0] == "magnet" && len(f) >= 2:
-				runMagnet(c, string(vhlib.UnHex(f[1])), nil, false, "replay")
+				safely(c, func() { runMagnet(c, string(vhlib.UnHex(f[1])), nil, false, "replay") })
 			case f[0] == "deep" && len(f) == 3:
 				n, _ := strconv.Atoi(f[2])
 				deepProbe(c, f[1], n)
@@ -906,21 +987,24 @@ func main() {
 	deepProbe(c, "d1:a", 2000000)
 	deepProbe(c, "d4:info", 2000000)
 	for i := 0; i < c.N; i++ {
-		switch k := i % 20; {
-		case k < 10:
-			f, info := genTorrent(r)
-			runFile(c, []byte(f), &info, "grammar")
-		case k < 14:
-			f, _ := genTorrent(r)
-			runFile(c, mutate(r, []byte(f)), nil, "mutated")
-		case k == 14:
-			runFile(c, r.Bytes(r.Intn(200)), nil, "random")
-		case k < 18:
-			m, h, known := genMagnet(r)
-			runMagnet(c, m, h, known, "grammar")
-		default:
-			m, _, _ := genMagnet(r)
-			runMagnet(c, string(mutate(r, []byte(m))), nil, false, "mutated")
-		}
+		i := i
+		safely(c, func() {
+			switch k := i % 20; {
+			case k < 10:
+				f, info := genTorrent(r)
+				runFile(c, []byte(f), &info, "grammar")
+			case k < 14:
+				f, _ := genTorrent(r)
+				runFile(c, mutate(r, []byte(f)), nil, "mutated")
+			case k == 14:
+				runFile(c, r.Bytes(r.Intn(200)), nil, "random")
+			case k < 18:
+				m, h, known := genMagnet(r)
+				runMagnet(c, m, h, known, "grammar")
+			default:
+				m, _, _ := genMagnet(r)
+				runMagnet(c, string(mutate(r, []byte(m))), nil, false, "mutated")
+			}
+		})
 	}
 }
